@@ -631,6 +631,11 @@ def gen_C09(rng, tier):
         if rng.random() < 0.3:      # queried and used before (no in-place layering: the total length stays a power of two)
             warmup(rng, prog, 0, pts, inplace=False, qset=POW2_WARM if pow2 else TOL_WARM)
         prog += qs[: rng.randint(4, 9)]
+        if rng.random() < 0.3:      # another function's distribution is asked for in between: each keeps its own total length
+            prog += [leaf_stmt(7, ([F(0), F(8)], [F(0), F(3), F(0)]), c),
+                     C.query(7, "hist", bins=[(F(2), F(4))], closed="left", stat="sum"), C.query(7, "ecdf", side="right", ys=[F(3)]),
+                     C.query(0, "hist", bins=bins, closed=rng.choice(SIDES), stat="sum"),
+                     C.query(7, "hist", bins=[(F(2), F(4))], closed="left", stat="sum")]
         exact = pow2 and not any(q.get("q") == "describe" for q in prog[1:])      # describe reports std: sqrt, then squared again
         cases.append(mk(f"C09/{'pow2' if pow2 else 'gen'}/{k}", prog, flav(rng, has_nan(f)), mode="exact" if exact else "tol", tags=["dist"]))
     return cases
